@@ -332,6 +332,20 @@ def check_d4(ctx) -> None:
     ctx.check('indexfirstmaxdrawdown > 0' in g2, 'D4', 'WellBores.Calculate/redrill-only-if-limit-reached', f'{rel}:{s.lineno}', 'tiling is not guarded by index > 0')
 
 
+def _is_store_base(name_node: ast.Name) -> bool:
+    """The name occurs only as the base of a subscript that is being stored to (`out[i] = ...`) or as the argument of len()."""
+    from gxstat.srcmodel import parent
+    p_ = parent(name_node)
+    q = name_node
+    while isinstance(p_, ast.Subscript) and p_.value is q:
+        if isinstance(p_.ctx, (ast.Store, ast.Del)):
+            return True
+        q, p_ = p_, parent(p_)
+    if isinstance(p_, ast.Call) and dotted_name(p_.func) == 'len':
+        return True
+    return False
+
+
 def check_d6_d7(ctx) -> None:
     repo = ctx.repo
     cg = get_callgraph(repo)
@@ -356,6 +370,12 @@ def check_d6_d7(ctx) -> None:
                 base = base.value
             if isinstance(base, ast.Name) and base.id in params and base.id not in rebound and \
                     (isinstance(tg, ast.Subscript) or isinstance(st, ast.AugAssign) and _array_like(f, base.id)):
+                # an output parameter - an array the caller hands over to be filled, which the helper never reads - is not shared input
+                reads_it = isinstance(st, ast.AugAssign) or any(
+                    isinstance(x, ast.Name) and x.id == base.id and isinstance(x.ctx, ast.Load) and not _is_store_base(x)
+                    for x in ast.walk(f.node))
+                if not reads_it:
+                    continue
                 bad = st
                 break
         key = f'{f.qualname}/does-not-store-into-its-arguments'
